@@ -103,7 +103,7 @@ func (c *completion) completeOptionNames(s *parseState, prefix string, match str
 	}
 
 	var results []Completion
-	repeats := map[string]bool{}
+	repeats := map[*Option]bool{}
 
 	for name, opt := range s.lookup.longNames {
 		if strings.HasPrefix(name, match) && !opt.Hidden {
@@ -113,14 +113,14 @@ func (c *completion) completeOptionNames(s *parseState, prefix string, match str
 			})
 
 			if short {
-				repeats[string(opt.ShortName)] = true
+				repeats[opt] = true
 			}
 		}
 	}
 
 	if short {
 		for name, opt := range s.lookup.shortNames {
-			if _, exist := repeats[name]; !exist && strings.HasPrefix(name, match) && !opt.Hidden {
+			if !repeats[opt] && strings.HasPrefix(name, match) && !opt.Hidden {
 				results = append(results, Completion{
 					Item:        string(defaultShortOptDelimiter) + name,
 					Description: opt.Description,
